@@ -243,6 +243,42 @@ def kinds(scn):
     return k
 
 
+def text_family(ck, rnd, n):
+    """the ways an instant can be WRITTEN: clock times as EPANET text ('12:30 PM', '7:05'; ClockTable.tla gives the instant
+    each text denotes) and simulation-time conditions split into first_time + threshold.  The scenario carries the instant
+    (judged by the specification) and, in Python-only keys, the text / split the real condition is built from."""
+    r = common.run_tlc("ClockTable", "SPECIFICATION Spec\nINVARIANT Emit\nINVARIANT InRange\n", workers=1)
+    ck.add_tlc(r)
+    table = [row for tag, obj in r.prints if tag == "CLOCK" for row in obj]
+    if len(table) < 100:
+        raise common.MachineryError("ClockTable.tla printed %d rows" % len(table))
+    opts = [o for o in options_grid() if o["Dur"] == 194400 and o["Rs"] in (900, o["H"])]
+    out = []
+    rnd.shuffle(table)
+    for i in range(n):
+        o = dict(rnd.choice(opts))
+        if i % 4 != 3:
+            row = table[i % len(table)]
+            text = ("%d:%02d" % (row["h"], row["m"])) + ((" " + row["ap"]) if row["ap"] else "")
+            if rnd.random() < 0.5:
+                body = {"init": [1, 1], "rules": [],
+                        "ctl": [{"kind": "clock", "thr": row["sec"], "rep": 0, "link": 1, "val": 0, "prio": 3, "text": text}]}
+            else:
+                body = {"init": [1, 1], "ctl": [],
+                        "rules": [{"cond": dict(atom("clock", rnd.choice([">=", "<"]), row["sec"]), text=text),
+                                   "then": [{"link": 1, "val": 0}], "else": [{"link": 1, "val": 1}], "prio": 3}]}
+            ck.count("clock_text_scenarios")
+        else:
+            first = rnd.choice([1800, 3600, 5400, 18000])
+            thr = first + rnd.choice([0, 900, 7200, 10000])
+            body = {"init": [1, 1], "rules": [],
+                    "ctl": [{"kind": "sim", "thr": thr, "rep": rnd.choice([0, 0, 21600]), "link": 1, "val": 0, "prio": 3, "first": first}]}
+            ck.count("first_time_scenarios")
+        o.update(body)
+        out.append(o)
+    return out
+
+
 def main(tier, replay):
     ck = common.Check("C04", "model_checking", tier)
     rnd = random.Random(common.SEED)
@@ -270,7 +306,7 @@ def main(tier, replay):
         else:
             s1 = s1 + s1b
             s2 = s2_random(rnd, 30000)
-        scns = s1 + s2
+        scns = s1 + s2 + text_family(ck, rnd, 144 if tier == "quick" else 1500)
         ck.cov["exhaustive"] = (tier == "thorough")
     for i, s in enumerate(scns):
         s["id"] = i + 1
